@@ -78,8 +78,10 @@ func writeOracle(path string, exprs []string, m map[string]oracleEntry) error {
 // tlcEvaluate asks TLC for every expression (the argument texts themselves are included, so the table also shows
 // that TLC can build every universe value).
 func tlcEvaluate(ctx context.Context, exprs []string, workers int) (map[string]oracleEntry, int64, error) {
-	r := &tlabridge.Runner{Parallel: workers, ChunkSize: 150}
-	res, err := r.Eval(ctx, exprs)
+	// REPL mode: thousands of these expressions fail to evaluate by design, and the read-eval-print loop of TLC
+	// survives an evaluation error (the batch mode would need one JVM start per failing expression)
+	r := &tlabridge.Runner{Parallel: workers, Timeout: 90 * time.Second}
+	res, err := r.EvalREPL(ctx, exprs)
 	if err != nil {
 		return nil, r.JVMRuns.Load(), err
 	}
